@@ -191,6 +191,56 @@ def case_h264(rng, out, enum_range=None):
             out.sample(desc | {"payload_sizes": [len(p) for p in payloads][:20]})
 
 
+class Interleaver:
+    """Iterator over the NAL units of stream 1 which, when asked for its k-th unit, first lets a complete packetisation of
+    stream 2 run on another encoder - the state a thread switch at that point produces when two senders encode in the
+    executor's threads.  Both results must equal what each stream gives on its own."""
+
+    def __init__(self, nals, k, other):
+        self.it = iter(nals)
+        self.k = k
+        self.n = 0
+        self.other = other
+        self.other_result = None
+
+    def __iter__(self):
+        return self
+
+    def __next__(self):
+        if self.n == self.k and self.other_result is None:
+            self.other_result = self.other()
+        self.n += 1
+        return next(self.it)
+
+
+def case_interleaved(rng, out):
+    from aiortc.codecs.h264 import H264Encoder
+
+    for _ in range(20):
+        small = lambda: make_nal(rng, rng.choice([2, 3, 10, 100, 140, 320, 640]))
+        s1 = [small() if rng.random() < 0.8 else make_nal(rng, nal_size(rng)) for _ in range(rng.randint(2, 12))]
+        s2 = [small() if rng.random() < 0.8 else make_nal(rng, nal_size(rng)) for _ in range(rng.randint(1, 12))]
+        desc = {"kind": "h264-interleaved", "sizes_1": [len(n) for n in s1], "sizes_2": [len(n) for n in s2]}
+        try:
+            alone1 = H264Encoder()._packetize(list(s1))
+            alone2 = H264Encoder()._packetize(list(s2))
+            k = rng.randint(1, len(s1))
+            inter = Interleaver(s1, k, lambda: H264Encoder()._packetize(list(s2)))
+            got1 = H264Encoder()._packetize(inter)
+            got2 = inter.other_result
+        except Exception as exc:
+            out.fail("h264-packetize-raises", f"{type(exc).__name__}: {exc}", desc, exc)
+            continue
+        out.checked()
+        out.counters["interleaved_packetisations"] += 1
+        if got2 is None:
+            continue
+        if got1 != alone1 or got2 != alone2:
+            which = "the suspended one" if got1 != alone1 else "the one that ran in between"
+            out.fail("h264-interleaving-changes-output", f"two packetisations interleaved at NAL unit {k} of the first: {which} differs from its "
+                     f"result alone ({[len(p) for p in got1][:8]} vs {[len(p) for p in alone1][:8]})", desc | {"k": k})
+
+
 def case_vp8(rng, out, enum_range=None):
     import av
     from aiortc.codecs.vpx import Vp8Encoder, VpxPayloadDescriptor, vp8_depayload
@@ -304,6 +354,7 @@ def run_case(index, rng, tier):
         out.counters["kind_descriptor"] += 1
     elif index % 2:
         case_h264(rng, out)
+        case_interleaved(rng, out)
         out.counters["kind_h264"] += 1
     else:
         case_vp8(rng, out)
